@@ -323,3 +323,7 @@ func sortedCopy(ss []string) []string {
 	sort.Strings(out)
 	return out
 }
+
+func fileseqParse(s, style string) (*fileseq.FileSequence, error) {
+	return fileseq.NewFileSequencePad(s, styleOf(style))
+}
